@@ -198,14 +198,17 @@ impl Field {
         width_fields: &HashMap<String, WidthField>,
     ) -> Tokens<Java> {
         match self {
-            Field::Integral { name, ty, .. } if self.is_width() => {
+            Field::Integral { name, ty, width, .. } if self.is_width() => {
                 let arr_name = name
                     .strip_suffix("Size")
                     .unwrap_or_else(|| name.strip_suffix("Count").unwrap());
 
+                // The masked chunk has the narrowest type fitting the field: widen it as an
+                // unsigned value, sizes and counts are never negative.
                 let t = ExprTree::new();
+                let from = Integral::fitting(*width).min(*ty);
                 t.gen_expr(t.sub(
-                    t.symbol(quote!($expr), *ty),
+                    t.cast(t.symbol(quote!($expr), from), *ty),
                     t.num(width_fields.get(arr_name).unwrap().modifier().unwrap_or(0)),
                 ))
             }
